@@ -7,6 +7,8 @@ import warnings
 import numpy as np
 
 from .. import engine, optics as op, refmodel as rm
+from .. import histories
+from ..histories import t_callhist      # worker task of the history harness (mc/histories.py)
 
 PID = 'C10'
 MOD = 'mc.props.c10'
@@ -885,6 +887,7 @@ def run(tier, seed, acc, procs=None):
         for first in EVENTS:
             tasks.append(('t_bfs', {'seed': seed, 'depth': depth, 'frozen': frozen, 'first': first}))
     acc.states += 1
+    tasks += histories.tasks_for(PID, seed)        # pairwise call histories over the operations this property is anchored in
     engine.run_parallel(MOD, tasks, acc, procs, memo_merge=memo_merge)
     acc.cls('memo-keys', len(acc.memo))
     return {
